@@ -399,7 +399,11 @@ func (rn *runner) jsonCase(kind, key string, d *jv, always bool) {
 			return
 		}
 		obs = t
-		rn.usable("json", key, func() *tls.ClientHelloSpec {
+		what := "json"
+		if !specShapeValid(spec) {
+			what = "raw-invalid-shape" // repeated extension type or pre_shared_key not last: not a valid hello
+		}
+		rn.usable(what, key, func() *tls.ClientHelloSpec {
 			s, _ := (&tls.Fingerprinter{AlwaysAddPadding: always}).UnmarshalJSONClientHello([]byte(doc))
 			return s
 		}, map[string]any{"doc": clip(doc, 800)})
@@ -459,4 +463,23 @@ func (rn *runner) jsonSuite(n int) {
 		}
 		rn.c.Count("json-malformed")
 	}
+}
+
+// specShapeValid: no extension type twice and a pre_shared_key extension, when present, last.
+func specShapeValid(s *tls.ClientHelloSpec) bool {
+	seen := map[string]bool{}
+	for i, e := range s.Extensions {
+		t := fmt.Sprintf("%T", e)
+		if g, ok := e.(*tls.GenericExtension); ok {
+			t += fmt.Sprint(g.Id)
+		}
+		if seen[t] {
+			return false
+		}
+		seen[t] = true
+		if _, ok := e.(tls.PreSharedKeyExtension); ok && i != len(s.Extensions)-1 {
+			return false
+		}
+	}
+	return true
 }
